@@ -20,7 +20,7 @@ from checks import msgfamily  # noqa: E402
 
 LEVEL = "fault_enumeration"
 PREFIXES = ("C08/", "crash/")
-EXTRA_WRAPS = ["mc_choose", "abort", "__log_event", "shutdown"]
+EXTRA_WRAPS = ["mc_choose", "abort", "__log_event", "shutdown", "SSL_CTX_new", "SSL_CTX_free"]
 
 TPS = ("ux", "uxf", "tcp", "btcp", "tls", "btls", "utls")
 TCPISH = ("tcp", "btcp", "tls", "btls", "utls")
@@ -84,6 +84,8 @@ def scenarios(tp, tier):
             "sc=ctlclient,ctl=on"]
     out += ["sc=conn-cps,ctl=on,forkat=%d" % k for k in range(1, 7)]
     out += ["sc=server,ctl=on,forkat=1", "sc=ctlfork,ctl=on,forkat=1"]
+    # process-local resources of the process that only cleans up: hand-over in both directions, 1 vs 3 connections
+    out += ["sc=handover,ctl=on", "sc=forkn,ctl=on"]
     if tp in TCPISH:
         # fork while the connection attempt is still in progress (timers armed, resolver busy)
         out += ["sc=abandon-resolving,ctl=on,forkat=1", "sc=abandon-connecting,ctl=on,forkat=1",
